@@ -1,9 +1,9 @@
 SPECIFICATION Spec
 CONSTANTS
-  Hyper = 24
+  Hyper = 12
   Tns = {0}
   Cfgs = {1, 2, 3}
-  Fns = {0, 1, 2, 3, 4, 5, 6, 7, 8, 9, 10, 11, 12, 13, 14, 15, 16, 17, 18, 19, 20, 21, 22, 23}
+  Fns = {0, 1, 2, 3, 4, 5, 6, 7, 8, 9, 10, 11}
   Desc <- MCDesc
   Lookup <- MCLookup
 INVARIANT TypeOK
